@@ -346,7 +346,21 @@ def r19_5(ctx):
             hi = K + hi
         return hi - lo
     subs = [n for n in ast.walk(dc) if isinstance(n, ast.Subscript) and src(n.value) == 'self.kv.kv' and isinstance(n.slice, ast.Slice)]
-    ctx.floor('R19.5', 'knot slices in the difference quotient', len(subs), 2)
+    if len(subs) < 2:
+        # not the knot-difference form: where does the denominator come from?
+        derived = [c for c in ast.walk(dc) if isinstance(c, ast.Call) and isinstance(c.func, ast.Attribute)
+                   and c.func.attr in ('greville', 'mesh', 'meshsize_avg')]
+        if derived:
+            ctx.violated('R19.5', f.qual, 'difference quotient over knot differences taken from the knot array', dc,
+                         '`%s` divides by differences of %s(): those are averages of p knots rounded at the magnitude of the knots and only then '
+                         'differenced, so the denominator carries a relative error of eps*|knots|/h instead of eps -- the derivative spline deviates from '
+                         'the pointwise derivative for intervals far from the origin (t[i+p+1] - t[i+1] itself is exact to rounding)'
+                         % (src(dc)[:80], derived[0].func.attr))
+        else:
+            ctx.undecided('R19.5', f.qual, 'difference quotient over knot differences taken from the knot array', dc, 'form not recognised: ' + src(dc)[:80])
+        ok = isinstance(dk, ast.Call) and src(dk.args[0]) == 'self.kv.kv[1:-1]' and src(dk.args[1]).replace(' ', '') == 'p-1'
+        ctx.decide('R19.5', f.qual, src(dk), ok or None, dk, 'derivative lives on the knot vector without the outer knots, degree p-1')
+        return
     lens = [slice_len(s.slice) for s in subs]
     want = K - P - 2           # numdofs - 1 = len(np.diff(coeffs))
     for s, l in zip(subs, lens):
